@@ -1,4 +1,8 @@
 pub mod c01;
+pub mod c04;
+pub mod c06;
+pub mod c07;
+pub mod lin;
 pub mod common;
 
 use crate::evidence::{Ctx, EvidenceKeys};
@@ -12,6 +16,9 @@ pub struct Outcome {
 pub fn run(id: &str, reg: &dyn Registry, ctx: &Ctx) -> Option<Outcome> {
     match id {
         "C01" => Some(c01::run(reg, ctx)),
+        "C04" => Some(c04::run(reg, ctx)),
+        "C06" => Some(c06::run(reg, ctx)),
+        "C07" => Some(c07::run(reg, ctx)),
         _ => None,
     }
 }
